@@ -278,6 +278,9 @@ fn run_chain(prof: &Profile, hist: &[OpId], chain: &[Faulted], out: &mut Vec<Vio
 
 pub fn fault_ops(prof: &Profile, p: &Pool) -> Vec<Op> {
     let mut v: Vec<Op> = enabled(prof, p).into_iter().map(|i| prof.table[i as usize]).collect();
+    // write! under a refused allocation is covered by WriteFmt; a refusal *and* a failing Display
+    // in one call has no reference behaviour
+    v.retain(|o| !matches!(o, Op::WriteFmtBad(..)));
     if p.empty_slot().is_some() {
         for k in 0..CONV_KINDS {
             for t in [3u8, 4, 5] {
